@@ -361,3 +361,40 @@ Example nonvacuous_attr :
   /\ afused (abuild (tl ex_chain) ex_root) = Some [5; 7] /\ areq (abuild (tl ex_chain) ex_root) = Some true
   /\ afused s = None /\ acoll s = [11; 12] /\ adispose s = [3] /\ awreach s = [2; 3] /\ actor_ok s = true.
 Proof. vm_compute. repeat split; try reflexivity; repeat constructor. Qed.
+
+(* ---- round 4 ---- *)
+(* kept accessors: an accessor obtained earlier (stack `fetched`) and called after subset layers were re-sampled (stack
+   `cur`) answers like one fetched now -- entry k of the CURRENT composed index map, the current length.  The harness
+   checks that the real kept accessors (bound getitem_x / getall_x, ModeWrapper(mode="x")) answer as kept_eval says. *)
+Theorem kept_accessor_uses_current_stack : forall fetched cur o, kept_eval fetched cur o = kept_eval cur cur o.
+Proof. exact kept_is_fresh. Qed.
+Print Assumptions kept_accessor_uses_current_stack.
+
+Theorem kept_accessor_answers_current_map : forall fetched cur k,
+  valid cur = true -> is_fin (den_of cur) = true -> - zlen (map_of cur) <= k < zlen (map_of cur) ->
+  kept_eval fetched cur (HItem k) =
+  HRItem (nth_error (map_of cur) (Z.to_nat (if k <? 0 then zlen (map_of cur) + k else k))) /\
+  kept_eval fetched cur HLen = HRLen (Some (zlen (map_of cur))).
+Proof. exact kept_item_is_current_map. Qed.
+Print Assumptions kept_accessor_answers_current_map.
+
+(* the kind resolved for the alias name "getdim_" ++ k is exactly k, for EVERY string k (underscores, digits, kinds that
+   are prefixes of other kinds) ... *)
+Theorem getdim_kind_is_exact_suffix : forall k,
+  is_getdim ("getdim_" ++ k) = true /\ dim_kind ("getdim_" ++ k) = k.
+Proof. exact getdim_kind_exact. Qed.
+Print Assumptions getdim_kind_is_exact_suffix.
+
+(* ... so on every chain no layer of which defines the alias name itself, getdim_<k>() is getshape_<k>()[0] of that very
+   k, seen from the first KDDataset-family layer *)
+Theorem getdim_alias_resolves_exact_kind : forall ls r k,
+  Forall (fun n => own n ("getdim_" ++ k) = None) (nodes_of ls r) ->
+  aquery (abuild ls r) ("getdim_" ++ k) =
+  shape1 (nearest (nodes_of (skip_to_kd ls) r) ("getshape_" ++ k)).
+Proof. exact getdim_alias_exact_kind. Qed.
+Print Assumptions getdim_alias_resolves_exact_kind.
+
+Example nonvacuous_getdim_kinds :
+  map (fun k => dim_kind ("getdim_" ++ k)) ["class"; "class_before_grouping"; "multi_label_target"; "x_2"; "u_"; ""]%string
+  = ["class"; "class_before_grouping"; "multi_label_target"; "x_2"; "u_"; ""]%string.
+Proof. reflexivity. Qed.
